@@ -19,7 +19,7 @@ func init() {
 		Explanation: "Structural necessary conditions of 'compiled programs behave like the reference toolchain' are decided: the compiler/prelude/natives boundary is closed (names, arities, properties, unshadowable host names), dispatches are total, compiler panics are contained, templates lex as JavaScript and do not glue operators, program assembly order, 32-bit sizes. NOT decided: that any emitted statement means what the Go construct means.",
 		Assumptions: []string{"go/types and go/ast describe the compiler's own code faithfully", "acorn parses the prelude as Node would", "string constants of package compiler are the only way it produces JavaScript text"},
 		Rules: []RuleFunc{ruleL1, ruleL2, ruleL3, ruleL4, ruleL8, ruleL9, ruleTotal("C01.exh", 30, ""), ruleBuiltins, ruleRewrites,
-			ruleContain, ruleLex, ruleAdj, ruleAssembly, ruleSizes},
+			ruleContain, ruleLex, ruleAdj, ruleAssembly, ruleSizes, ruleOnce},
 	})
 }
 
@@ -775,4 +775,89 @@ func ruleSizes(c *ctx.Ctx, r *core.Reporter) {
 			r.Check(ok, "unsafe."+b+":sizes32", c.Pos(tb.Pos()), "unsafe."+b+" is computed with sizes32")
 		}
 	}
+}
+
+// ---------------------------------------------------------------------------
+// C01.once: an operand that a template mentions several times is evaluated once
+
+func ruleOnce(c *ctx.Ctx, r *core.Reporter) {
+	r.Begin("C01.once", "F-MUST", "formatExprInternal hoists every operand that its template mentions more than once into a temporary, except operands whose repeated evaluation is unobservable: identifiers and constants", 3)
+	fd := c.FuncDecl("compiler", "funcContext.formatExprInternal")
+	if fd == nil {
+		r.Undecided("formatExprInternal", "compiler/expressions.go", "not found")
+		return
+	}
+	// the loop that allocates temporaries: contains newLocalVariable and ranges over the argument slice
+	var loop *ast.RangeStmt
+	ast.Inspect(fd.Body, func(n ast.Node) bool {
+		if rs, ok := n.(*ast.RangeStmt); ok && len(callsNamed(rs.Body, "newLocalVariable")) > 0 && loop == nil {
+			loop = rs
+		}
+		return true
+	})
+	if loop == nil {
+		r.Violation("hoist-loop", c.Pos(fd.Pos()), "formatExprInternal no longer allocates temporaries for operands used more than once")
+		return
+	}
+	alloc := callsNamed(loop.Body, "newLocalVariable")[0]
+	elem := exprStr(loop.Value)
+	nExempt := 0
+	for _, st := range loop.Body.List {
+		if st.Pos() > alloc.Pos() {
+			break
+		}
+		skips := false
+		ast.Inspect(st, func(n ast.Node) bool {
+			if bs, ok := n.(*ast.BranchStmt); ok && bs.Tok.String() == "continue" {
+				skips = true
+			}
+			return true
+		})
+		if !skips {
+			continue
+		}
+		nExempt++
+		desc, ok := "", false
+		switch x := st.(type) {
+		case *ast.IfStmt:
+			cond := squash(exprStr(x.Cond))
+			init := ""
+			if x.Init != nil {
+				init = squash(nodeString(c, x.Init))
+			}
+			switch {
+			case strings.HasPrefix(cond, "counts[") && strings.HasSuffix(cond, "<=1"):
+				ok, desc = true, "operand used at most once"
+			case strings.Contains(init, elem+".(*ast.Ident)"):
+				ok, desc = true, "identifier: reading a variable twice is unobservable"
+			case strings.Contains(init, ".Value") && (cond == "val!=nil" || strings.HasSuffix(cond, "!=nil")):
+				ok, desc = true, "constant operand"
+			default:
+				desc = "exemption `" + nodeString(c, x.Init) + "; " + exprStr(x.Cond) + "`"
+			}
+		case *ast.TypeSwitchStmt:
+			var types []string
+			for _, cl := range x.Body.List {
+				cc := cl.(*ast.CaseClause)
+				hasContinue := false
+				ast.Inspect(cc, func(n ast.Node) bool {
+					if bs, isB := n.(*ast.BranchStmt); isB && bs.Tok.String() == "continue" {
+						hasContinue = true
+					}
+					return true
+				})
+				if hasContinue {
+					for _, l := range cc.List {
+						types = append(types, exprStr(l))
+					}
+				}
+			}
+			ok = len(types) == 1 && types[0] == "*ast.Ident"
+			desc = "exempt node types " + strings.Join(types, ", ")
+		case *ast.SwitchStmt:
+			desc = "switch-based exemption"
+		}
+		r.Check(ok, fmt.Sprintf("hoist-exemption#%d", nExempt), c.Pos(st.Pos()), ternary(ok, desc, desc+": an operand form other than an identifier or a constant is spliced into the template several times, so its side effects (calls, receives) happen several times and its value may change between the copies"))
+	}
+	r.Check(nExempt >= 2, "hoist-exemptions-found", c.Pos(loop.Pos()), fmt.Sprintf("%d exemptions precede the temporary allocation", nExempt))
 }
